@@ -98,6 +98,13 @@ def runIndicators (cfg : Dict) : Dict :=
   | some (.obj M) => Dict.setKey cfg "pipeline" (.obj (runPipeline M))
   | _ => cfg
 
+/-- the pipeline after `run`, given the fact the translator reads off `state_machine.py`
+    (`Generated.runWritesIndicator`: the two assignments above are there / `run` writes nothing into `cfg`) -/
+def afterRunPipeline (w : Bool) (M : Dict) : Dict := if w then runPipeline M else M
+
+/-- the configuration after `run` -/
+def afterRun (w : Bool) (cfg : Dict) : Dict := if w then runIndicators cfg else cfg
+
 /-! ### 2. The checked pipeline as C20's `List StepCfg`; `GlobalMargins.to_dict()` -/
 
 /-- an integer parameter (Python: a bool is an integer); `d` when absent or not an integer -/
@@ -158,13 +165,13 @@ def machineMargins (rows cols rows2 cols2 : Int) (M : Dict) : Option Global :=
   (checkMargins rows cols rows2 cols2 (stepCfgsOf M) {}).map (·.g)
 
 /-- **Model of the saved `cfg/config.json`** from `check_conf`'s result `out`, the shapes of the two
-    images and the two facts about `main`: the machine's margins (registered by the check callbacks while
-    `check_conf` checked the pipeline of `out`), `to_dict()`, stored by `main` into the configuration
-    `run` has written the indicators into; `none` = a margin registration raised -/
-def savedConfig (facts : MainFacts) (out : Dict) (rows cols rows2 cols2 : Nat) : Option Dict :=
+    images, the two facts about `main` and the fact about `run`: the machine's margins (registered by the
+    check callbacks while `check_conf` checked the pipeline of `out`), `to_dict()`, stored by `main` into the
+    configuration `run` has written the indicators into; `none` = a margin registration raised -/
+def savedConfig (facts : MainFacts) (runWrites : Bool) (out : Dict) (rows cols rows2 cols2 : Nat) : Option Dict :=
   match Dict.lookup out "pipeline" with
   | some (.obj M) =>
-    (machineMargins rows cols rows2 cols2 M).map fun g => mainSavedDict facts (runIndicators out) (globalToJ g)
+    (machineMargins rows cols rows2 cols2 M).map fun g => mainSavedDict facts (afterRun runWrites out) (globalToJ g)
   | _ => none
 
 end Pandora.SaveConfig
